@@ -27,7 +27,17 @@ class Ctx:
         self.extra_nodes = job.get("atoms", {}).get("Node", [])
 
     def reprobj(self, s):
-        return self.R.ReprObj(s, 100)
+        o = self.R.ReprObj(s, 100)
+        # a self-rendering object is any object with _repr_html_(): it may well carry attributes that happen to be named like a tag's
+        # (add_ws, name, attrs, children) - they mean nothing to the renderer
+        k = self.rnd.random()
+        if k < 0.15:
+            o.add_ws = True
+        elif k < 0.25:
+            o.add_ws, o.name, o.attrs, o.children = self.rnd.choice([True, False]), "div", {"class": "x"}, ["kid"]
+        elif k < 0.3:
+            o.name, o.data = "script", "<data>"
+        return o
 
     def rtree(self, d, meta=True, objs=True, blocks=True, names=None):
         core, r = self.core, self.rnd
